@@ -12,28 +12,33 @@
 (***************************************************************************)
 EXTENDS Failure
 
-CONSTANT Extras   \* script families, subset of {"none", "mup", "owed", "stale"}:
+CONSTANT Extras   \* script families, subset of {"none", "mup", "owed", "stale", "merge"}:
                   \* "none"  gates, the racing API transition parked early / late, faults
                   \* "mup"   a master-generated TASK_RUNNING update (no executor id / no ids at all), then a fault
                   \* "owed"  the racing API transition with one task's answer withheld: the task can die owing it,
                   \*         the answer is delivered late - before or after the watcher's timer (env.watch.fire held)
                   \* "stale" a stale healthy state message of the dead task is processed after its failure,
                   \*         within (timer held) or beyond the watcher's grace period
+                  \* "merge" (FineChains) the ERROR update of the victim's role is held between its merge and its forwarding
+                  \*         (hook point wf.taskrole.merged) while a stale healthy state message of the same task goes through
 
 VARIABLES
   wgate,    \* the watcher parks at its next hook point (env.watch.start when unsub, else env.watch.recv)
   txgate,   \* "none" | "early" | "late" | "owed": where the API transition parks / waits for owedT's answer
   owedT,    \* the task whose answer is withheld
   fgate,    \* the watcher's timer callback parks at env.watch.fire
+  mgate,    \* ERROR updates of task roles park right after their merge (wf.taskrole.merged)
   extra,    \* the script family of this behaviour
   script,   \* script steps so far
   shape     \* the initial choice, kept for printing
 
-gvars == <<wgate, txgate, owedT, fgate, extra, script, shape>>
+gvars == <<wgate, txgate, owedT, fgate, mgate, extra, script, shape>>
 
 \* ---- pipeline under gates, in priority order --------------------------------
 PickMsg == CHOOSE m \in msgs : TRUE
-PickChain == CHOOSE c \in chains : \A d \in chains : c.pc = "notify" \/ d.pc # "notify"
+Held(c) == mgate /\ c.s = "ERROR" /\ c.pc \in {"pub", "fwd"}
+FreeChains == {c \in chains : ~Held(c)}
+PickChain == CHOOSE c \in FreeChains : \A d \in FreeChains : c.pc = "notify" \/ d.pc # "notify"
 PickStq == CHOOSE t \in stq : TRUE
 Repliers == {t \in tx.targets \ tx.replied : (alive[t] \/ t \in late) /\ ~(txgate = "owed" /\ t = owedT)}
 PickReply == CHOOSE t \in Repliers : TRUE
@@ -41,7 +46,7 @@ PickIe == CHOOSE t \in ies : TRUE
 
 P1 == msgs # {} /\ (StatusMsg(PickMsg) \/ FailureMsg(PickMsg) \/ DeviceMsg(PickMsg) \/ RunningMsg(PickMsg))
 P2 == stq # {} /\ StatusInactive(PickStq)
-P3 == chains # {} /\ (StateToError(PickChain) \/ RoleForward(PickChain) \/ RootMerge(PickChain)
+P3 == FreeChains # {} /\ (StateToError(PickChain) \/ RolePublish(PickChain) \/ RoleForward(PickChain) \/ RootMerge(PickChain)
                       \/ NotifyDeliver(PickChain) \/ NotifyDrop(PickChain))
 P4 == tx.pc = "sent" /\ Repliers # {} /\ TxReply(PickReply)
 P5 == ~wgate /\ (WatchSubscribe \/ WatchRecv)
@@ -68,7 +73,7 @@ NFaults == Cardinality({i \in 1..Len(script) : script[i][1] = "fault"})
 
 G_Fault(k, t) ==
   /\ Stable
-  /\ (extra = "mup" => script # <<>>) /\ (extra = "owed" => txgate = "owed")
+  /\ (extra = "mup" => script # <<>>) /\ (extra = "owed" => txgate = "owed") /\ (extra = "merge" => mgate)
   /\ CASE k \in StatusKinds -> TaskTerminal(k, t)
        [] k = "TASK_FINISHED" -> Finished(t)
        [] k \in {"EXECUTOR_LOST", "AGENT_LOST"} -> GroupLost(k, t)
@@ -77,7 +82,7 @@ G_Fault(k, t) ==
   \* a task that dies owing its answer: the answer was already on its way (delivered by "latereply")
   /\ late' = IF txgate = "owed" /\ ~alive'[owedT] THEN late \cup {owedT} ELSE late
   /\ Step(<<"fault", k, t>>)
-  /\ UNCHANGED <<wgate, txgate, owedT, fgate, extra, shape>>
+  /\ UNCHANGED <<wgate, txgate, owedT, fgate, mgate, extra, shape>>
 
 \* the racing API transition, parked early (lock acquired, nothing sent) or late (state entered, lock held)
 G_Api(g) ==
@@ -87,7 +92,7 @@ G_Api(g) ==
   /\ ApiAcquire
   /\ txgate' = g
   /\ Step(<<"api", IF envSt = "CONFIGURED" THEN "START" ELSE "STOP", g>>)
-  /\ UNCHANGED <<wgate, owedT, fgate, extra, shape>>
+  /\ UNCHANGED <<wgate, owedT, fgate, mgate, extra, shape>>
 
 \* the racing API transition with the answer of task t withheld
 G_ApiOwed(t) ==
@@ -95,25 +100,26 @@ G_ApiOwed(t) ==
   /\ ApiAcquire
   /\ txgate' = "owed" /\ owedT' = t
   /\ Step(<<"api", IF envSt = "CONFIGURED" THEN "START" ELSE "STOP", "owed", t>>)
-  /\ UNCHANGED <<wgate, fgate, extra, shape>>
+  /\ UNCHANGED <<wgate, fgate, mgate, extra, shape>>
 
 G_LateReply ==
   /\ Stable /\ txgate = "owed" /\ NFaults > 0
   /\ txgate' = "none"
   /\ Step(<<"latereply", owedT>>)
-  /\ UNCHANGED vars /\ UNCHANGED <<wgate, owedT, fgate, extra, shape>>
+  /\ UNCHANGED vars /\ UNCHANGED <<wgate, owedT, fgate, mgate, extra, shape>>
 
 G_Stale(t) ==
-  /\ extra = "stale" /\ Stable /\ txgate = "none"
+  /\ extra \in {"stale", "merge"} /\ Stable /\ txgate = "none"
+  /\ (extra = "merge" => mgate)
   /\ StaleUpdate(t)
   /\ Step(<<"stale", t>>)
-  /\ UNCHANGED <<wgate, txgate, owedT, fgate, extra, shape>>
+  /\ UNCHANGED <<wgate, txgate, owedT, fgate, mgate, extra, shape>>
 
 G_MasterUpdate(t, v) ==
   /\ extra = "mup" /\ Stable /\ txgate = "none" /\ NFaults = 0 /\ script = <<>>
   /\ MasterUpdate(t, v)
   /\ Step(<<"mupdate", t, v>>)
-  /\ UNCHANGED <<wgate, txgate, owedT, fgate, extra, shape>>
+  /\ UNCHANGED <<wgate, txgate, owedT, fgate, mgate, extra, shape>>
 
 \* hold the 500 ms timer of the watcher: what follows the fault is processed within the grace period
 G_ArmF ==
@@ -121,40 +127,53 @@ G_ArmF ==
   /\ (extra = "owed" /\ txgate = "owed") \/ (extra = "stale" /\ script = <<>>)
   /\ fgate' = TRUE
   /\ Step(<<"armf">>)
-  /\ UNCHANGED vars /\ UNCHANGED <<wgate, txgate, owedT, extra, shape>>
+  /\ UNCHANGED vars /\ UNCHANGED <<wgate, txgate, owedT, mgate, extra, shape>>
+
+G_ArmM ==
+  /\ extra = "merge" /\ Stable /\ ~mgate /\ script = <<>>
+  /\ mgate' = TRUE
+  /\ Step(<<"armm">>)
+  /\ UNCHANGED vars /\ UNCHANGED <<wgate, txgate, owedT, fgate, extra, shape>>
+
+G_ReleaseM ==
+  /\ Stable /\ mgate /\ NFaults > 0
+  /\ mgate' = FALSE
+  /\ Step(<<"releasem">>)
+  /\ UNCHANGED vars /\ UNCHANGED <<wgate, txgate, owedT, fgate, extra, shape>>
 
 G_ReleaseF ==
   /\ Stable /\ fgate /\ NFaults > 0
   /\ fgate' = FALSE
   /\ Step(<<"releasef">>)
-  /\ UNCHANGED vars /\ UNCHANGED <<wgate, txgate, owedT, extra, shape>>
+  /\ UNCHANGED vars /\ UNCHANGED <<wgate, txgate, owedT, mgate, extra, shape>>
 
 \* arm the watcher gate while it waits at its select: it will park at its next receive
 G_ArmW ==
   /\ extra = "none" /\ Stable /\ ~wgate /\ wpc = "select" /\ NFaults = 0 /\ budget > 1
   /\ wgate' = TRUE
   /\ Step(<<"armw">>)
-  /\ UNCHANGED vars /\ UNCHANGED <<txgate, owedT, fgate, extra, shape>>
+  /\ UNCHANGED vars /\ UNCHANGED <<txgate, owedT, fgate, mgate, extra, shape>>
 
 G_ReleaseW ==
   /\ Stable /\ wgate /\ NFaults > 0
   /\ wgate' = FALSE
   /\ Step(<<"releasew">>)
-  /\ UNCHANGED vars /\ UNCHANGED <<txgate, owedT, fgate, extra, shape>>
+  /\ UNCHANGED vars /\ UNCHANGED <<txgate, owedT, fgate, mgate, extra, shape>>
 
 G_ReleaseTx ==
   /\ Stable /\ txgate \in {"early", "late"} /\ NFaults > 0
   /\ txgate' = "none"
   /\ Step(<<"releasetx">>)
-  /\ UNCHANGED vars /\ UNCHANGED <<wgate, owedT, fgate, extra, shape>>
+  /\ UNCHANGED vars /\ UNCHANGED <<wgate, owedT, fgate, mgate, extra, shape>>
 
 GenInit ==
   /\ Init
   /\ wgate = (wpc \in {"unsub", "busy"})
-  /\ txgate = "none" /\ owedT = "none" /\ fgate = FALSE
+  /\ txgate = "none" /\ owedT = "none" /\ fgate = FALSE /\ mgate = FALSE
   /\ extra \in Extras
   /\ (extra = "owed" => apiLeft > 0)
-  /\ (extra \in {"mup", "stale"} => wpc = "select")
+  /\ (extra \in {"mup", "stale", "merge"} => wpc = "select")
+  /\ (extra = "merge" => FineChains)
   /\ script = <<>>
   /\ shape = [crit |-> crit, layout |-> layout, hook |-> hook, state |-> envSt, watch |-> wpc]
 
@@ -164,11 +183,11 @@ GenNext ==
   \/ \E g \in {"early", "late"} : G_Api(g)
   \/ G_ArmW \/ G_ReleaseW \/ G_ReleaseTx
   \/ \E t \in Tasks : G_ApiOwed(t) \/ G_Stale(t) \/ G_MasterUpdate(t, "noexec") \/ G_MasterUpdate(t, "noids")
-  \/ G_LateReply \/ G_ArmF \/ G_ReleaseF
+  \/ G_LateReply \/ G_ArmF \/ G_ReleaseF \/ G_ArmM \/ G_ReleaseM
 
 GenSpec == GenInit /\ [][GenNext]_<<vars, gvars>>
 
 PrintCase ==
-  (Stable /\ ~wgate /\ ~fgate /\ txgate = "none" /\ NFaults > 0 /\ script[Len(script)][1] \notin {"armw", "armf"})
+  (Stable /\ ~wgate /\ ~fgate /\ ~mgate /\ txgate = "none" /\ NFaults > 0 /\ script[Len(script)][1] \notin {"armw", "armf"})
     => PrintT(<<"CASE", shape, script>>)
 =============================================================================
